@@ -188,12 +188,18 @@ UFS = [(1.0, 1.0, 1.0, 1.0), (1.1, 1.25, 1.3, 1.05), (0.9, 1.0, 2.0, 1.5)]
 
 
 def _uf_system(kind, n):
-    """nrb=1, elastic in the middle, one rf at the end"""
+    """nrb=1, elastic in the middle, one rf at the end (kinds ending in -rfmid: rf directly after the rigid-body mode)"""
     rng = np.random.RandomState(7)
     nrb = 1
     rf = np.array([n - 1])
     k = np.array([0.0] + [100.0 * (i + 1) for i in range(n - 2)] + [5.0e5])
     m = np.array([2.0] + [1.0 + 0.25 * i for i in range(n - 1)])
+    if kind.endswith("-rfmid"):
+        # the residual-flexibility mode sits between the rigid-body mode and the elastic modes
+        # (elastic modes are not a leading block of the non-rigid-body modes)
+        rf = np.array([nrb])
+        k = np.array([0.0, 5.0e5] + [100.0 * (i + 1) for i in range(n - 2)])
+        kind = kind[:-6]
     b = 0.02 * k + 0.1
     if kind == "diag":
         return None if False else m, b, k, nrb, rf
@@ -204,7 +210,7 @@ def _uf_system(kind, n):
     K = np.diag(k)
     B = np.diag(b)
     M = np.diag(m)
-    el = list(range(nrb, n - 1))
+    el = [i for i in range(nrb, n) if i not in list(rf)]
     for i in el:
         for j in el:
             if i != j:
@@ -591,9 +597,9 @@ def jobs(tier, seed):
     if not q:
         out.append(H.Job("maxmin-2x4", job, "maxmin", 2, 4, split_depth=8, weight=20))
     n = 4 if q else 5
-    for kind in ("diag", "diag-mNone", "diag-norf"):
+    for kind in ("diag", "diag-mNone", "diag-norf", "diag-rfmid"):
         out.append(H.Job("uf-%s" % kind, job, "uf", kind, n, 2, True, weight=5))
-    for kind in ("full", "full-norf", "diag"):
+    for kind in ("full", "full-norf", "diag", "full-rfmid"):
         out.append(H.Job("uf-%s-concrete" % kind, job, "uf", kind, n, 2, False, weight=5))
     out.append(H.Job("frfuf", job, "frfuf", 4, 2, weight=1))
     return out
